@@ -189,7 +189,7 @@ func runRPause(c *drv.Ctx) error {
 }
 
 func runConcurrent(c *drv.Ctx) error {
-	w := cw.New(c.Out, concHeader, "ccase", []cw.Check{{Name: "MISMATCH", Fn: "ccase_ok"}, {Name: "MON20", Fn: "ccase_mon"}})
+	w := cw.New(c.Out, concHeader, "ccase", []cw.Check{{Name: "MISMATCH", Fn: "ccase_ok"}, {Name: "MON20", Fn: "ccase_mon"}, {Name: "MON20D", Fn: "ccase_mon_disjoint"}})
 	w.ShardSize = 100
 	w.Stats.Rule = "one real requestor and one real responder over the mocknet, two requests in flight at once: request 1 = a generated DAG from its root, request 2 = the sub-DAG under one of its blocks (3/4, overlapping) or a second disjoint DAG (1/4); 2/3 of the cases force the losing order with a responder store gate (request 1 served up to g links, then request 2 entirely) and a requestor store gate (request 1's root commit held until request 2 completed), the rest run free; " +
 		"monitor: each request's delivered (path,node) sequence and errors equal those of the same request alone (reference); correspondence (gated cases): the composition of the C19 link-tracker model with two requestor models sharing one store. non-trivial = overlapping and gated; distinct = distinct terms"
